@@ -11,6 +11,7 @@ mod engine_sm;
 mod props;
 mod real;
 mod refimpl;
+mod teardown;
 
 use common::*;
 use serde_json::Value;
@@ -65,7 +66,7 @@ fn main() {
                 i += 1;
                 replay = Some(args.get(i).cloned().unwrap_or_else(|| machinery("--replay needs a file")));
             }
-            _ if prop == "crosscheck" => {}
+            _ if prop == "crosscheck" || prop == "stackprobe" || prop == "teardown" => {}
             other => machinery(&format!("unknown argument {other}")),
         }
         i += 1;
@@ -112,6 +113,30 @@ fn main() {
         }
         println!("crosscheck ok: {n} reference computations agree with python hashlib/hmac/zlib");
         return;
+    }
+    if prop == "teardown" {
+        teardown::child(args.get(2).map(|s| s.as_str()).unwrap_or("tcp"));
+        return;
+    }
+    if prop == "stackprobe" {
+        // child of C01's stack probe: the probe family on a thread with a stack of args[2] KiB
+        let kib: usize = args.get(2).and_then(|a| a.parse().ok()).unwrap_or_else(|| machinery("stackprobe <KiB>"));
+        let cases = props::c01::stack_cases();
+        let n = cases.len();
+        let h = std::thread::Builder::new().name(format!("stack-{kib}KiB")).stack_size(kib * 1024).spawn(move || {
+            let mut acc = Acc::default();
+            for c in &cases {
+                props::c01::judge(c, &mut acc);
+            }
+            acc.violations.len()
+        });
+        match h.map(|h| h.join()) {
+            Ok(Ok(v)) => {
+                println!("stackprobe ok: {n} cases on {kib} KiB, {v} violation signature(s)");
+                return;
+            }
+            other => machinery(&format!("stackprobe: {:?}", other.map(|r| r.map_err(|_| "panicked")))),
+        }
     }
     if prop == "selftest" {
         println!("selftest ok ({:.2}s)", start.elapsed().as_secs_f64());
